@@ -527,6 +527,11 @@ impl Engine for Clones {
             f.vars = true;
             f.vecs = true;
         }
+        if rng.chance(1, 3) {
+            // values carrying tags are Rc-shared between copies too
+            f.tags = true;
+            f.tag_weight = 10;
+        }
         let input_len = *rng.pick(&[0usize, 32, 64]);
         let input = random_bytes(rng, input_len);
         let recording = rng.chance(1, 2);
